@@ -355,7 +355,7 @@ def _snap_affine_post(A, ttol, stol, tol, result):
 contract(
     f"{MATH}:snap_affine",
     ["C20", "C10", "C03"],
-    inputs=dict(A=AFFINE(), ttol=Real(ge=0, le=0.25), stol=Real(ge=0, le=0.25), tol=Real(ge=0)),
+    inputs=dict(A=AFFINE(), ttol=Real(ge=0, le=0.25), stol=Real(gt=0, le=0.25), tol=Real(ge=0)),
     ensures=[
         ("rotated input is returned untouched (same object); otherwise each part snapped within its tolerance", _snap_affine_post),
         (
